@@ -243,6 +243,28 @@ CONTRACTS["model:ResidualJunctionCompartment.balance#plain"] = dict(
     defined_props=["C02"],
 )
 
+# Residual junction inside a duration group: the same rule per elapsed-time row (every link in and out is a TimedLink with R rows)
+CONTRACTS["model:ResidualJunctionCompartment.balance#group"] = dict(
+    schema=schema,
+    params={"ti": "int"},
+    ghost_params={"R": "int"},
+    requires=["0 <= ti", "self.duration_group is not None", "self.duration_group != ''", "R >= 1",
+              "all(isinstance(l, TimedLink) for l in self.outlinks)", "all(isinstance(il, TimedLink) for il in self.inlinks)",
+              "all(l._vals.shape[0] == R and ti < l._vals.shape[1] for l in self.outlinks)",
+              "all(il._vals.shape[0] == R and ti < il._vals.shape[1] for il in self.inlinks)",
+              "all(implies(l.parameter is not None, ti < len(l.parameter.vals) and l.parameter.vals[ti] >= 0) for l in self.outlinks)",
+              "sum(1 for l in self.outlinks if l.parameter is None) == 1",
+              "all(il._vals[i, ti] >= 0 for il in self.inlinks for i in range(R))"],
+    modifies=["l._vals[:, ti] for l in self.outlinks"],
+    ensures=[
+        ("C04+C05.stated_proportion_scaled_to_one_per_row", "all(implies(l.parameter is not None, l._vals[i, ti] * max(1, old(%s)) == old(%s) * old(l.parameter.vals[ti])) for l in self.outlinks for i in range(R))" % (_res_P, _inflow_row)),
+        ("C01+C04.residual_gets_the_remainder_of_its_own_row", "all(implies(l.parameter is None, l._vals[i, ti] == old(%s) * max(0, 1 - old(%s))) for l in self.outlinks for i in range(R))" % (_inflow_row, _res_P)),
+        ("C02.flows_nonneg", "all(l._vals[i, ti] >= 0 for l in self.outlinks for i in range(R))"),
+    ],
+    frame_props=["C01", "C02", "C04"],
+    defined_props=["C02"],
+)
+
 # ------------------------------------------------------------------------------------------------ number of rows (C05, FPSTD)
 # rows = max(1, n) with n in the band around q = D/dt (D = duration * timescale * scale factor, exact reals), m = max(1, q):
 #   q - 1e-6*m <= n < q + 1 - 1e-12*m      (n = k when D is exactly k steps; ceil(q) away from integers; grey zone in between)
